@@ -72,11 +72,13 @@ Inductive c10_case :=
 | RunCase (c : client) (cops rops : list rop_spec) (s : rstate) (script : list ain)
           (detect : bytes) (hkeys : list bytes) (o : obs)
 | BackoffCase (mn mx attempt : Z) (d : Z)    (* d = interval returned by the real function *)
-| UploadCase (cform rform : amap) (fs : list mfile) (dtab : list (bytes * bytes))
-             (o : list (list part)) (failed : bool).
-      (* a multipart program: client-level and request-level form data, file sources,
-         DetectContentType as a table; per attempt the parts seen on the wire, and whether the
-         call was ended by a refused retry (RetryAttempt counted a retry that was never sent) *)
+| UploadCase (retryable chunked : bool) (cform rform : amap) (fs : list mfile)
+             (dtab : list (bytes * bytes)) (o : list (list part * bool)) (failed upfront : bool).
+      (* a multipart program: retries enabled (a retry option with count <> 0)?, forced chunked
+         encoding?, client-level and request-level form data, file sources, DetectContentType as
+         a table; per attempt the parts seen on the wire and whether the body was read to its
+         end; whether the call was ended by a refused retry (RetryAttempt counted a retry that
+         was never sent); whether Do refused the request up front *)
 
 Definition lookup_detect (tab : list (bytes * bytes)) (k : bytes) : bytes :=
   match find (fun e => bytes_eqb (fst e) k) tab with Some e => snd e | None => [] end.
@@ -127,8 +129,9 @@ Definition c10_check (cs : c10_case) : bool :=
   | BackoffCase mn mx a d =>
       (* d is a value of [backoff] for some draw: take u = d - half *)
       (backoff mn mx a (d - backoff_half mn mx a) =? d)%Z
-  | UploadCase cform rform fs dtab o failed =>
+  | UploadCase retryable chunked cform rform fs dtab o failed upfront =>
       let n := (length o + (if failed then 1 else 0))%nat in
-      let r := mp_attempts file_read (lookup_detect dtab) n 0 (add_values cform rform) fs in
-      list_eqb (list_eqb part_eqb) (fst r) o && Bool.eqb (snd r) failed
+      let r := mp_run file_read (lookup_detect dtab) retryable chunked n (add_values cform rform) fs in
+      list_eqb (fun a b => list_eqb part_eqb (fst a) (fst b) && Bool.eqb (snd a) (snd b)) (fst (fst r)) o &&
+      Bool.eqb (snd (fst r)) failed && Bool.eqb (snd r) upfront
   end.
